@@ -259,45 +259,41 @@ func checkForElse(w *World, r *Report) {
 		}
 		// (b) body only where length != 0 ; (c) else only where nothing iterates
 		nonZeroEdge := func(b *ssa.BasicBlock, i int) bool {
-			v, trueIdx, ok := ifCond(b)
-			if !ok {
-				return false
-			}
-			bo, ok := v.(*ssa.BinOp)
-			if !ok {
-				return false
-			}
-			if c, ok := bo.Y.(*ssa.Const); ok && c.Value != nil && c.Value.ExactString() == "0" {
-				if bt, ok := bo.X.Type().Underlying().(*types.Basic); ok && bt.Info()&types.IsInteger != 0 {
-					switch bo.Op {
-					case token.EQL:
-						return i != trueIdx
-					case token.NEQ, token.GTR:
-						return i == trueIdx
+			return anyEdgeFact(b, i, func(v ssa.Value, trueIdx int) bool {
+				bo, ok := v.(*ssa.BinOp)
+				if !ok {
+					return false
+				}
+				if c, ok := bo.Y.(*ssa.Const); ok && c.Value != nil && c.Value.ExactString() == "0" {
+					if bt, ok := bo.X.Type().Underlying().(*types.Basic); ok && bt.Info()&types.IsInteger != 0 {
+						switch bo.Op {
+						case token.EQL:
+							return i != trueIdx
+						case token.NEQ, token.GTR:
+							return i == trueIdx
+						}
 					}
 				}
-			}
-			return false
+				return false
+			})
 		}
 		nothingEdge := func(b *ssa.BasicBlock, i int) bool {
-			v, trueIdx, ok := ifCond(b)
-			if !ok {
-				return false
-			}
-			if bo, ok := v.(*ssa.BinOp); ok {
-				if c, ok := bo.Y.(*ssa.Const); ok {
-					if c.Value != nil && c.Value.ExactString() == "0" && bo.Op == token.EQL {
-						return i == trueIdx // length == 0
-					}
-					if c.Value == nil && bo.Op == token.EQL {
-						return i == trueIdx // seq == nil
+			return anyEdgeFact(b, i, func(v ssa.Value, trueIdx int) bool {
+				if bo, ok := v.(*ssa.BinOp); ok {
+					if c, ok := bo.Y.(*ssa.Const); ok {
+						if c.Value != nil && c.Value.ExactString() == "0" && bo.Op == token.EQL {
+							return i == trueIdx // length == 0
+						}
+						if c.Value == nil && bo.Op == token.EQL {
+							return i == trueIdx // seq == nil
+						}
 					}
 				}
-			}
-			if _, isPhi := v.(*ssa.Phi); isPhi && types.Identical(v.Type().Underlying(), types.Typ[types.Bool]) {
-				return i != trueIdx // !isIterable
-			}
-			return false
+				if _, isPhi := v.(*ssa.Phi); isPhi && types.Identical(v.Type().Underlying(), types.Typ[types.Bool]) {
+					return i != trueIdx // !isIterable
+				}
+				return false
+			})
 		}
 		for _, b := range bodies {
 			if bad, path := existsPathAvoiding(fn, b, nil, nonZeroEdge); bad {
